@@ -235,6 +235,35 @@ Lemma fold_tell_fields L : forall n,
   dur n' = dur n /\ best n' = best n /\ sdb_root n' = sdb_root n /\ orphans n' = orphans n /\ bad n' = bad n /\ lib n' = lib n.
 Proof. induction L as [|t L IH]; intros n; simpl; auto 10. apply (IH (tell n (EvMemPoolPut t))). Qed.
 
+(** the in-memory parameters are not touched by writes and messages *)
+Lemma emit_ne_pmem n u : pmem (emit_ne n u) = pmem n.
+Proof. unfold emit_ne. destruct (u_ops u); reflexivity. Qed.
+Lemma fold_emit_ne_pmem (f : block -> wunit) L : forall n,
+  pmem (fold_left (fun n b => emit_ne n (f b)) L n) = pmem n.
+Proof. induction L as [|b L IH]; intros n; simpl; auto. rewrite IH. apply emit_ne_pmem. Qed.
+Lemma fold_tell_pmem L : forall n, pmem (fold_left (fun n t => tell n (EvMemPoolPut t)) L n) = pmem n.
+Proof. induction L as [|t L IH]; intros n; simpl; auto. rewrite IH. reflexivity. Qed.
+Lemma swap_chain_pmem n m top news olds sw : pmem (swap_chain n m top news olds sw) = pmem n.
+Proof.
+  unfold swap_chain. destruct sw; cbn [pmem emit set_best];
+    rewrite fold_tell_pmem, emit_ne_pmem, fold_emit_ne_pmem, emit_ne_pmem; reflexivity.
+Qed.
+Lemma execute_block_pmem' n b n' :
+  execute_block apply n b = Some n' -> pmem n = sdb_root n /\ pmem n' = sdb_root n'.
+Proof.
+  intros Ex. destruct (execute_block_pmem _ _ _ _ Ex) as (H1 & H2).
+  destruct (execute_block_frame _ _ _ _ Ex) as (_ & _ & Fs & _). split; congruence.
+Qed.
+Lemma rollforward_pmem L : forall n n2 ok, rollforward apply n L = (n2, ok) ->
+  pmem n = sdb_root n -> pmem n2 = sdb_root n2.
+Proof.
+  induction L as [|b L IH]; intros n n2 ok H Hp; simpl in H.
+  - inversion H; subst. exact Hp.
+  - destruct (execute_block apply n b) as [n1|] eqn:Ex.
+    + eapply IH; eauto. apply (execute_block_pmem' _ _ _ Ex).
+    + inversion H; subst. exact Hp.
+Qed.
+
 Lemma txmaps_other L : forall d k, (forall t, k <> KTx t) ->
   fold_left (fun d b => apply_unit d (txmap_unit b)) L d k = d k.
 Proof.
@@ -474,9 +503,10 @@ Lemma swap_inv n0 n2 m top news olds st :
   (forall c mm, In c news -> no c <= no (best n0) -> mainb (dur n0) (no c) = Some mm -> hash_field c <> hash_field mm) ->
   (forall x, In x olds <-> exists k, no st < k /\ k <= no (best n0) /\ mainb (dur n0) k = Some x) ->
   no (best n0) < no top ->
+  pmem n2 = sdb_root n2 ->
   Inv (swap_chain n2 m top news olds false).
 Proof.
-  intros I Hb Ho Hf Hsm Hrc Hv Hsdb Hnew Hst Hstlt Hne Hhd Hl Hstored Hdiff Holds Htop.
+  intros I Hb Ho Hf Hsm Hrc Hv Hsdb Hnew Hst Hstlt Hne Hhd Hl Hstored Hdiff Holds Htop Hpm.
   destruct (swap_chain_reads n2 m top news olds st Hl)
     as (Rb & Rs & Ro & Rbad & Rlib & RM & RL & RH & RB & RS & RR & RT).
   set (nF := swap_chain n2 m top news olds false) in *.
@@ -636,6 +666,7 @@ Proof.
   - exact RM.
   - intros id x. rewrite RB, Hf by (intros; discriminate). apply (i_univ _ _ _ _ _ I).
   - rewrite Ro, Ho. apply (i_orph _ _ _ _ _ I).
+  - rewrite Rs. unfold nF. rewrite swap_chain_pmem. exact Hpm.
 Qed.
 
 End Reorg.
